@@ -1985,7 +1985,7 @@ class mulgrid(object):
             if self.layerlist[0].bottom < pos[2] <= col.surface:
                 layer = self.layerlist[1] 
             else: layer = self.layer_containing_elevation(pos[2])
-            if layer:
+            if layer and pos[2] <= col.surface:
                 if (col.surface > layer.bottom):
                     blkname = self.block_name(layer.name, col.name, blockmap)
         return blkname
